@@ -149,8 +149,12 @@ fn step(h: &mut Handle, hid_: usize, st: &Value) -> Map<String, Value> {
             let raw = st.get("raw").and_then(|x| x.as_bool()).unwrap_or(false);
             m.insert("pwkind".into(), st.get("pwkind").cloned().unwrap_or(json!("none")));
             m.insert("raw".into(), json!(raw));
+            let byname = st.get("name").and_then(|x| x.as_str()).map(|x| x.to_string());
             let opened: Result<ZipFile<'static>, String> = unsafe {
-                if raw {
+                if let Some(nm) = &byname {
+                    // by name: the lookup goes through whatever index the handle keeps
+                    (*arp).by_name(nm).map_err(|e| err_class(&e).to_string())
+                } else if raw {
                     (*arp).by_index_raw(i).map_err(|e| err_class(&e).to_string())
                 } else if let Some(p) = &pw {
                     match (*arp).by_index_decrypt(i, p) {
@@ -275,8 +279,21 @@ fn differential(sc: &Value, bytes: &[u8], out: &mut Vec<Value>, push: &mut dyn F
         let base = mk().ok()?;
         let mut hs: Vec<Handle> = (0..nh).map(|_| Handle { ar: Box::leak(Box::new(base.clone())), file: None }).collect();
         let mut shared: Vec<Vec<String>> = vec![vec![]; nh];
+        // a second archive (scenario field hex2) a handle can be RE-TARGETED at through Clone::clone_from (op "retarget"): from
+        // then on the handle must behave like a fresh handle of that archive, whatever it looked up before
+        let bytes2 = sc.get("hex2").and_then(|x| x.as_str()).map(unhex);
+        let mk2 = || ZipArchive::new(Yielding { data: Arc::new(bytes2.clone().unwrap_or_default()), pos: 0, rng: 1, every: 0, ctl: Ctl::new(), id: 0, clone_pos: 0 });
+        let base2 = if bytes2.is_some() { mk2().ok() } else { None };
         for st in &steps {
             let h = st["h"].as_u64().unwrap_or(0) as usize % nh;
+            if st["op"].as_str() == Some("retarget") {
+                hs[h].file = None;
+                if let Some(b2) = &base2 {
+                    hs[h].ar.clone_from(b2);
+                }
+                shared[h].push("retarget".into());
+                continue;
+            }
             let e = step(&mut hs[h], h, st);
             shared[h].push(sig_of(&e));
         }
@@ -288,6 +305,14 @@ fn differential(sc: &Value, bytes: &[u8], out: &mut Vec<Value>, push: &mut dyn F
             let mut one = Handle { ar: Box::leak(Box::new(mk().ok()?)), file: None };
             let mut alone = vec![];
             for st in steps.iter().filter(|st| st["h"].as_u64().unwrap_or(0) as usize % nh == h) {
+                if st["op"].as_str() == Some("retarget") {
+                    one.file = None;
+                    if bytes2.is_some() {
+                        one = Handle { ar: Box::leak(Box::new(mk2().ok()?)), file: None };     // alone: simply a fresh handle of that archive
+                    }
+                    alone.push("retarget".into());
+                    continue;
+                }
                 alone.push(sig_of(&step(&mut one, h, st)));
             }
             one.file = None;
